@@ -383,9 +383,6 @@ func probe(a arg) (string, string) {
 	g1, e1 := size.DefaultParser(doc, size.Rule(a.Rule))
 	cp := []byte(doc)
 	g2, e2 := size.DefaultParser(cp, size.Rule(a.Rule))
-	if string(cp) != doc {
-		return "input_modified", fmt.Sprintf("DefaultParser changed its input %q", doc)
-	}
 	type res struct {
 		name string
 		g    size.Size
@@ -396,9 +393,6 @@ func probe(a arg) (string, string) {
 		var u size.Size = 4242
 		e3 := u.UnmarshalJSON(cp)
 		if e3 != nil {
-			if u != 4242 {
-				return "receiver_modified_on_error", fmt.Sprintf("UnmarshalJSON(%q) = %v, receiver %d", doc, e3, uint64(u))
-			}
 			u = 0
 		}
 		rs = append(rs, res{"UnmarshalJSON(DefaultRule=rule)", u, e3})
